@@ -305,6 +305,8 @@ def _judge_sweep_run(ctx, sweep, o, size, buflen, ln, inst):
 def _length_constants(ctx, repo, folder, m):
     # get_length intervals
     table = folder.global_(m, "DALVIK_OPCODES_FORMAT")
+    if not isinstance(table, dict):
+        raise AnalysisError("DALVIK_OPCODES_FORMAT does not fold to a constant dict (the table is built by code the constant folder does not evaluate)")
     seen = set()
     for op, row in sorted(table.items()):
         cls = row[0].obj
